@@ -596,4 +596,61 @@ theorem iter_sim (H : Hyp T tpep len M fuel) (j : Nat) (hj : j < (mkParams T tpe
   · exact R1.sl
 end Iter
 
+
+section For
+variable (T : List (List Nat)) (tpep len : Nat) (oracle : Nat → Bool) (fuel : Nat) (pl : Int) (M : Nat)
+
+/-- S4: the main loop -/
+theorem for_sim (H : Hyp T tpep len M fuel) : ∀ (cnt f j : Nat) (k : EvenSt OSt) (m : St),
+    Rel (mkParams T tpep len) M j k m → j + cnt + 1 = (mkParams T tpep len).eHalf → cnt ≤ f →
+    (forLoop (mkParams T tpep len) cnt j m).err = none →
+    Rel (mkParams T tpep len) M (j + cnt)
+      (whileF (EvenSt.live obs)
+        (fun s => match ec_eval_even_strategy_loop1_cond obs T tpep oracle fuel len pl s with | .ok b => b | .error _ => true)
+        (fun s => match ec_eval_even_strategy_loop1_cond obs T tpep oracle fuel len pl s with
+          | .ok _ => ec_eval_even_strategy_loop1_body obs T tpep oracle fuel len pl s | .error f => s.fail f)
+        (fun s => s.fail .fuel) f k)
+      (forLoop (mkParams T tpep len) cnt j m) := by
+  intro cnt
+  induction cnt with
+  | zero =>
+    intro f j k m R hj _ _
+    have h6 : (mkParams T tpep len).eHalf = len / 2 := rfl
+    have h3 := H.hmag
+    have hc : (match ec_eval_even_strategy_loop1_cond obs T tpep oracle fuel len pl k with | .ok b => b | .error _ => true) = false := by
+      simp only [ec_eval_even_strategy_loop1_cond, R.eh, R.jj]
+      rw [w64]
+      simp; omega
+    rw [whileF_stop _ _ _ _ _ _ (by simp [hc])]
+    exact R
+  | succ cnt ih =>
+    intro f j k m R hj hf he
+    have h6 : (mkParams T tpep len).eHalf = len / 2 := rfl
+    have h3 := H.hmag
+    obtain ⟨f', rfl⟩ : ∃ f', f = f' + 1 := ⟨f - 1, by omega⟩
+    have hlive : EvenSt.live obs k = true := by simp [EvenSt.live, obs, R.kf, R.kb]
+    have hc : (match ec_eval_even_strategy_loop1_cond obs T tpep oracle fuel len pl k with | .ok b => b | .error _ => true) = true := by
+      simp only [ec_eval_even_strategy_loop1_cond, R.eh, R.jj]
+      rw [w64]
+      simp; omega
+    rw [whileF_step _ _ _ _ _ _ (by simp [hc, hlive])]
+    have hbody : (match ec_eval_even_strategy_loop1_cond obs T tpep oracle fuel len pl k with
+        | .ok _ => ec_eval_even_strategy_loop1_body obs T tpep oracle fuel len pl k | .error f => k.fail f) =
+        ec_eval_even_strategy_loop1_body obs T tpep oracle fuel len pl k := by
+      simp [ec_eval_even_strategy_loop1_cond]
+    rw [hbody]
+    simp only [forLoop] at he ⊢
+    have he1 : (isoStep (mkParams T tpep len) j (whileLoop (mkParams T tpep len) j m)).err = none := by
+      cases hq : (isoStep (mkParams T tpep len) j (whileLoop (mkParams T tpep len) j m)).err with
+      | none => rfl
+      | some e =>
+        rw [forLoop_err _ cnt (j + 1) _ (by simp [hq])] at he
+        simp [hq] at he
+    have R' := iter_sim T tpep len oracle fuel pl M H j (by omega) k m R he1
+    have := ih f' (j + 1) _ _ R' (by omega) (by omega) he
+    have e : j + 1 + cnt = j + (cnt + 1) := by omega
+    rw [e] at this
+    exact this
+end For
+
 end SqiProofs.SkelEvenSim
